@@ -209,6 +209,15 @@ fn record(o: &Outcome) -> String {
                 s.push_str(&format!("{} inline={} bank={} size={:?}\n{}", f.name, f.inline, f.bank, f.size_bytes, strip_listing(&f.text.clone().unwrap_or_default())));
             }
             s.push_str(&format!("{:?}{:?}", obs.call_tree, obs.in_use));
+            for a in &obs.asm_includes {
+                // assembler text: one instruction per line, blanks and comments are not content
+                for l in a.lines() {
+                    let l = l.split(';').next().unwrap_or("").trim();
+                    if !l.is_empty() {
+                        s.push_str(&format!("\nasm| {}", l.split_whitespace().collect::<Vec<_>>().join(" ")));
+                    }
+                }
+            }
             s
         }
         Outcome::Err(e) => format!("Err {} {}", e.kind, e.msg),
@@ -322,6 +331,147 @@ fn judge(kind: &str, idx: u64, src: &str, base_opts: &Opts, sig: Option<String>)
     res
 }
 
+
+/// Function sequences: every function ends with a statement after which the generator's flag /
+/// register bookkeeping describes some variable, and the next one starts with a test of a
+/// variable or register.  What a listing option appends to the code buffer must not decide whether
+/// that bookkeeping is carried across the function boundary.
+pub fn fnseq_source(idx: u64) -> String {
+    let mut rng = Rng::for_case("C11fnseq", idx);
+    let vars = ["g0", "g1", "g2"];
+    let mut s = String::from("unsigned char g0, g1, g2, r, q;\nsigned char sg;\nunsigned short w;\n");
+    let nf = 2 + rng.below(3) as usize;
+    let mut names = Vec::new();
+    let mut last_var = vars[rng.below(3) as usize];
+    for f in 0..nf {
+        let v = if rng.chance(2, 3) { last_var } else { vars[rng.below(3) as usize] };
+        let k = rng.below(4);
+        let first = match rng.below(9) {
+            0 => format!("if ({}) r = {};", v, k + 1),
+            1 => format!("if (!{}) r = {};", v, k + 1),
+            2 => format!("if ({} == 0) r = {}; else q = {};", v, k + 1, k),
+            3 => format!("r = {} ? {} : {};", v, k + 1, k + 5),
+            4 => format!("while ({}) {{ {}--; q++; if (q == 9) break; }}", v, v),
+            5 => format!("if (X) r = {};", k + 1),
+            6 => format!("if (Y == 0) r = {};", k + 1),
+            7 => format!("if (sg < 0) r = {};", k + 1),
+            _ => format!("if ({} != {}) r = {};", v, k, k + 1),
+        };
+        let mid = match rng.below(4) {
+            0 => String::new(),
+            1 => format!(" q = q + {};", k),
+            2 => format!(" w = w + {};", 250 + k),
+            _ => format!(" if (r > {}) q = 0;", k),
+        };
+        let lv = vars[rng.below(3) as usize];
+        let last = match rng.below(10) {
+            0 => format!("{} = {} - 1;", lv, lv),
+            1 => format!("{}++;", lv),
+            2 => format!("{}--;", lv),
+            3 => format!("{} = {} & {};", lv, vars[rng.below(3) as usize], 0x0f << (k & 1)),
+            4 => format!("X = {};", lv),
+            5 => format!("Y = {}; Y--;", lv),
+            6 => format!("{} |= {};", lv, k),
+            7 => format!("sg = {} - {};", lv, k + 100),
+            8 => format!("X++;"),
+            _ => format!("{} = {};", lv, k),
+        };
+        last_var = lv;
+        let inline = if f + 1 < nf && rng.chance(1, 5) { "inline " } else { "" };
+        s.push_str(&format!("{}void f{}() {{ {}{} {} }}\n", inline, f, first, mid, last));
+        names.push(format!("f{}", f));
+    }
+    // main starts with a test too (it follows the last function), and calls every function after
+    // a load that leaves other flags than the ones the callee's first test needs
+    s.push_str(&format!("void main() {{ if ({}) q = 1;", last_var));
+    for n in &names {
+        let k = rng.below(3);
+        match rng.below(4) {
+            0 => s.push_str(&format!(" r = 0; {}();", n)),
+            1 => s.push_str(&format!(" q = {}; {}();", k + 1, n)),
+            2 => s.push_str(&format!(" X = {}; {}();", k, n)),
+            _ => s.push_str(&format!(" w = {}; {}();", k * 256, n)),
+        }
+    }
+    s.push_str(" }\n");
+    s
+}
+
+
+fn incl_dir() -> String {
+    let d = format!("/verif/work/c11inc/p{}", std::process::id());
+    let _ = std::fs::create_dir_all(&d);
+    d
+}
+
+/// Sources made of several files: a comment (with //, quotes, URLs, directive text) after an
+/// #include on the same line, and comments inside included headers and included assembler
+/// files.  Plain and decorated versions must give the same record.
+fn incl_case(idx: u64) -> CaseResult {
+    let mut rng = Rng::for_case("C11incl", idx);
+    let dir = incl_dir();
+    const CMT: [&str; 8] = [
+        "/* defs, see http://example.com/h.h */",
+        "/* a // b */",
+        "/* \"quoted\" // and 'c' */",
+        "/* #define START 9 // not a directive */",
+        "/**/",
+        "/* one */ /* two // three */",
+        "// line comment with /* inside",
+        "/* ends here */ // tail */",
+    ];
+    let c = |rng: &mut Rng| CMT[rng.below(CMT.len() as u64) as usize];
+    let hdr_plain = "unsigned char hv;\n#define HK 7\nunsigned char hw;\n";
+    let hdr_deco = format!("unsigned char hv; {}\n#define HK 7\n{}\nunsigned char hw;\n", c(&mut rng), c(&mut rng));
+    let asm_plain = "tabdata\n\t.byte 1, 2, 3\n\tLDA #5\n\tSTA hv\n\tRTS\n";
+    let asm_deco = format!("tabdata {}\n\t.byte 1, 2, 3\n\tLDA #5 {}\n\tSTA hv\n{}\n\tRTS\n", c(&mut rng), c(&mut rng), c(&mut rng));
+    let with_asm = rng.chance(1, 2);
+    let k = rng.below(200);
+    let body = format!(
+        "#define START {}\n/* fall back when the configuration does not say otherwise */\n#ifndef START\n#define START 0\n#endif\nunsigned char after;\nvoid main() {{ hv = START; hw = HK; after = {}; }}\n",
+        k, k % 7
+    );
+    let inc_asm = if with_asm { "#include \"t.inc\"" } else { "" };
+    let plain = format!("#include \"hp.h\"\n{}\n{}", inc_asm.replace("t.inc", "tp.inc"), body);
+    let deco = format!("#include \"hd.h\" {}\n{} {}\n{}", c(&mut rng), inc_asm.replace("t.inc", "td.inc"), if with_asm { c(&mut rng) } else { "" }, body);
+    // which files are decorated: the including line only, or the included files too
+    let deco_files = rng.chance(2, 3);
+    let _ = std::fs::write(format!("{}/hp.h", dir), hdr_plain);
+    let _ = std::fs::write(format!("{}/hd.h", dir), if deco_files { hdr_deco.as_str() } else { hdr_plain });
+    let _ = std::fs::write(format!("{}/tp.inc", dir), asm_plain);
+    let _ = std::fs::write(format!("{}/td.inc", dir), if deco_files { asm_deco.as_str() } else { asm_plain });
+    let mut o = Opts::default();
+    o.include_dirs = vec![dir.clone()];
+    o.opt_level = (idx % 2) as u8;
+    let a = compile_src(&plain, &o);
+    let b = compile_src(&deco, &o);
+    let norm = |s: String| s.replace("tp.inc", "t.inc").replace("td.inc", "t.inc");
+    let (ra, rb) = (norm(record(&a)), norm(record(&b)));
+    let mut res = CaseResult::new("", hash_str(&deco) ^ hash_str(&hdr_deco) ^ hash_str(&asm_deco) ^ idx);
+    res.count("comparisons", 1);
+    res.count("multi-file variants compared", 1);
+    if !matches!(a, Outcome::Ok(_)) {
+        res.class = format!("plain multi-file source refused: {}", crate::common::outcome_class(&a));
+        return res;
+    }
+    res.nontrivial = true;
+    if with_asm {
+        res.count("included assembler files compared", 1);
+    }
+    if ra != rb {
+        let d = ra.lines().zip(rb.lines()).find(|(x, y)| x != y).map(|(x, y)| format!("plain: {}\ndecorated: {}", trunc(x, 200), trunc(y, 200))).unwrap_or_else(|| format!("{} / {}", a.short(), b.short()));
+        res.class = "decoration / option changed the result".into();
+        res.violate(
+            &format!("C11:incl:{}", idx),
+            &format!("C11: comments after #include / inside included files changed the outcome ({} -> {})\n{}\n--- decorated main file\n{}\n--- decorated header\n{}\n--- decorated assembler file\n{}", a.short(), b.short(), d, deco, if deco_files { hdr_deco.as_str() } else { hdr_plain }, if deco_files { asm_deco.as_str() } else { asm_plain }),
+            json!({"kind": "incl", "idx": idx, "source": plain, "variant": deco, "why": d}),
+        );
+        return res;
+    }
+    res.class = "accepted; decorations and listing options change nothing".into();
+    res
+}
+
 pub fn c11_pins() -> Vec<(&'static str, &'static str, &'static str)> {
     vec![
         ("url_in_block_comment", "unsigned char a;\nvoid main() { a = 1; }\n", "unsigned char a; /* see http://a.b/c */\nvoid main() { a = 1; }\n"),
@@ -368,6 +518,8 @@ impl Monitor for C11 {
             v.extend(split_chunks(k, seed_offset(seed, &format!("C11{}", k), pool_len(k)), n, pool_len(k), 50));
         }
         v.extend(split_chunks("seed", seed_offset(seed, "C11s", 30_000), n * 2, 30_000, 50));
+        v.extend(split_chunks("fnseq", seed_offset(seed, "C11f", 100_000), n, 100_000, 50));
+        v.extend(split_chunks("incl", seed_offset(seed, "C11i", 100_000), n / 2, 100_000, 50));
         v
     }
     fn run_case(&self, kind: &str, idx: u64) -> CaseResult {
@@ -391,6 +543,8 @@ impl Monitor for C11 {
                 }
                 res
             }
+            "incl" => incl_case(idx),
+            "fnseq" => judge(kind, idx, &fnseq_source(idx), &Opts::default(), None),
             "seed" => {
                 let src = LIT_SEEDS[(idx % LIT_SEEDS.len() as u64) as usize];
                 judge(kind, idx, src, &Opts::default(), None)
@@ -406,6 +560,8 @@ impl Monitor for C11 {
             ("distinct_nontrivial".into(), 2000),
             ("set:decoration kinds applied".into(), 19),
             ("option variants compared".into(), 5000),
+            ("multi-file variants compared".into(), 500),
+            ("included assembler files compared".into(), 200),
         ]
     }
 }
